@@ -245,6 +245,8 @@ def run(prog, chk):
     from .server_common import block_reads_on_cursor
     block_reads_on_cursor(prog, chk, "C16.m", "Xml::Private", "Xml.cpp")
     reference_terminator_window(prog, chk, "C16.n")
+    from .server_common import cursor_stores_not_null
+    cursor_stores_not_null(prog, chk, "C16.o", "Xml::Private", "Xml.cpp")
     from .. import balance
     balance.check(prog, chk, "C16.k", [f for f in prog.functions.values() if f.file.endswith("Xml.cpp") and (f.cls or "").startswith("Xml::Private")], "Xml::Private")
     chk.rule("C16.h", "MPT: every cursor / line field the tokenizer advances is set again in Private::parse before the first tokenizer call (a Parser is reused across documents)", floor=2)
